@@ -115,8 +115,9 @@ class _Lock:
         self.fh.close()
 
 
-def prune_old_trees(keep=2):
-    """Keep only the most recently used tree-hash directories."""
+def prune_old_trees(keep=6, min_age_s=3 * 3600):
+    """Keep only the most recently used tree-hash directories (never one touched in the last hours:
+    another check process may be running from it)."""
     if not os.path.isdir(BUILD):
         return
     cur = tree_hash()
@@ -126,8 +127,10 @@ def prune_old_trees(keep=2):
         if os.path.isdir(p) and len(d) == 16 and d != cur:
             ds.append((os.path.getmtime(p), p))
     ds.sort(reverse=True)
-    for _, p in ds[keep - 1:]:
-        shutil.rmtree(p, ignore_errors=True)
+    now = time.time()
+    for mt, p in ds[keep - 1:]:
+        if now - mt > min_age_s:
+            shutil.rmtree(p, ignore_errors=True)
 
 
 def cfg_dir(config):
@@ -306,8 +309,18 @@ def classify(prop, violations):
     return unknown, kn
 
 
+def _out_root():
+    """Evidence/replays of runs against a scratch tree (VERIF_REPO != /repo: mutation demonstrations) must never
+    overwrite the evidence of the real tree."""
+    if os.environ.get("VERIF_EVIDENCE_ROOT"):
+        return os.environ["VERIF_EVIDENCE_ROOT"]
+    if os.path.realpath(REPO) != "/repo":
+        return os.path.join(BUILD, "alt", tree_hash())
+    return VERIF
+
+
 def write_replay(prop, v):
-    d = os.path.join(VERIF, "replays", prop)
+    d = os.path.join(_out_root(), "replays", prop)
     os.makedirs(d, exist_ok=True)
     body = json.dumps(v, sort_keys=True, indent=1)
     h = hashlib.sha256(body.encode()).hexdigest()[:12]
@@ -318,7 +331,7 @@ def write_replay(prop, v):
 
 
 def write_evidence(prop, tier, level, coverage, wall_s, violations, assumptions):
-    os.makedirs(os.path.join(VERIF, "evidence"), exist_ok=True)
+    os.makedirs(os.path.join(_out_root(), "evidence"), exist_ok=True)
     ev = {
         "property_id": prop,
         "tier": tier,
@@ -330,7 +343,7 @@ def write_evidence(prop, tier, level, coverage, wall_s, violations, assumptions)
         "violations": violations,
         "tree_hash": tree_hash(),
     }
-    p = os.path.join(VERIF, "evidence", prop + ".json")
+    p = os.path.join(_out_root(), "evidence", prop + ".json")
     tmp = p + ".tmp"
     with open(tmp, "w") as fh:
         json.dump(ev, fh, indent=1, sort_keys=True)
